@@ -455,7 +455,7 @@ class Observed(object):
     pass
 
 
-def run_real_session(wd, probe, argv, script, random_choice=None):
+def run_real_session(wd, probe, argv, script, random_choice=None, cpu_count=1):
     """one real session; returns Observed: status, starts (classified), run order, file texts"""
     conf = os.path.join(wd, 'test.conf')
     order = {}
@@ -487,11 +487,32 @@ def run_real_session(wd, probe, argv, script, random_choice=None):
         disk.append([read_text(os.path.join(wd, f)) for f in probe.files])
         return script(rec)
     try:
-        res = drive.run_session(wd, [conf] + list(argv), snapshotting, random_choice=random_choice)
+        res = drive.run_session(wd, [conf] + list(argv), snapshotting, random_choice=random_choice,
+                                cpu_count=cpu_count)
+        n_starts_at_return = len(res.starts)
+        import threading as _th
+        alive_at_return = [t.name for t in _th.enumerate() if t.name.startswith('BenchmarkThread') and t.is_alive()]
     finally:
         rb_main.ReBench.execute_experiment = orig
         RunId.loaded_data_point = orig_loaded
         release_hanging()
+        # a session is over when its threads are: never let workers of one session run into the next
+        import threading
+        leftover = []
+        for t in threading.enumerate():
+            if t is not threading.current_thread() and (t.name.startswith('BenchmarkThread')
+                                                        or t.name.startswith('Subprocess')):
+                try:
+                    t.join(5)
+                except RuntimeError:      # still being started
+                    import time as _time
+                    _time.sleep(0.05)
+                    try:
+                        t.join(5)
+                    except RuntimeError:
+                        pass
+                if t.is_alive():
+                    leftover.append(t.name)
     ob = Observed()
     ob.status = res.status()
     ob.crash = res.crash
@@ -506,6 +527,10 @@ def run_real_session(wd, probe, argv, script, random_choice=None):
     ob.files = [read_text(os.path.join(wd, f)) for f in probe.files]
     ob.disk_at_start = disk
     ob.reloaded = reloaded
+    ob.threads_left = leftover
+    ob.workers_alive_at_return = alive_at_return
+    # processes started after the session had returned to its caller (workers that were not stopped)
+    ob.late_starts = [classify_start(probe, x) for x in res.starts[n_starts_at_return:]]
     return ob
 
 
